@@ -76,6 +76,8 @@ def run(tier, seed):
       space_seed = space_seed - space_seed % 9 + 3 * ((rd + DESIGNERS.index(name)) % 3) + space_seed % 3   # cycle the benchmark wrappers
       steps = [r.randrange(1, 4) for _ in range(r.choice([4, 7]))]
       modes = ['designer', 'inram'] + (['restore'] if name in SERIALIZABLE else []) + (['benchmark'] if name != 'cmaes' or True else [])
+      if name in ('quasi_random', 'grid', 'eagle'):
+        modes.append('benchmark_restore')
       for mode in modes:
         spec = {'mode': mode, 'designer': name, 'seed': sd, 'space_seed': space_seed, 'steps': steps}
         rep.case(spec, name != 'grid' or True)
